@@ -26,4 +26,8 @@ pub mod common;
 pub mod datamodel;
 pub mod event_io_processor;
 pub mod expression_engine;
+#[cfg(not(rufsm_verif))]
 pub mod test;
+
+#[cfg(rufsm_verif)]
+pub mod verif_sync;
